@@ -46,6 +46,8 @@ package mr
 //@   prop C07
 //@   requires c != nil
 //@   ensures [first-only] (calls("send") == 1) == (old(c.wrote) == 0) && calls("send") <= 1 && c.wrote == ite(old(c.wrote) == 0, 1, old(c.wrote))
+// the value handed over is the panic value itself (it is re-raised in the caller: its type and identity matter)
+//@   ensures [value-passed-as-it-is] calls("send") == 1 ==> arg("send", 0) == v && calls(on("send", c.channel)) == 1
 
 // guardedWriter.Write: sends only on its default arm, never after done / context end were chosen.
 //@ func (guardedWriter).Write
